@@ -8,7 +8,8 @@ for n in sorted(os.listdir('/verif/seeded')):
     note=''
     earlier.setdefault(m['breaks_property'],[]).append((n,m['needs_to_manifest']))
 rnd=sys.argv[1]
-for pid in sys.argv[2:]:
+emphasis=open(sys.argv[2]).read().strip()
+for pid in sys.argv[3:]:
     p=props[pid]; sid=f'{rnd}_{pid}'
     prev='\n'.join(f'  - "{n[4:]}" (manifests with: {need})' for n,need in earlier.get(pid,[]))
     t=f"""# Task: produce one subtle, realistic property-breaking change ("seeded change")
@@ -41,7 +42,7 @@ A change to the contract/package SOURCE (not to tests) that BREAKS this property
 4. it needs something SPECIFIC to manifest — a multi-step sequence of operations, a particular interleaving of
    users or of environment events (slashing, time passing, rewards arriving), an unusual but legal input, a boundary
    value, a failure at a particular point, or two cooperating sites that each look fine alone — NOT something that
-   ordinary first use exposes at once. Prefer changes whose effect is only visible across contracts or several steps later. In this round prefer one of these kinds: (a) a change in a READ path the property relies on — a query handler, a pagination or start_after or limit option, an optional field such as a recipient or an expiry, a default value — so that what is reported or which default applies is wrong only for particular states or arguments; (b) a change that only matters for large or boundary magnitudes (amounts near 10^18 base units, many entries, exactly-equal values, zero remainders); (c) two cooperating edits in different functions or contracts that each look fine alone.
+   ordinary first use exposes at once. Prefer changes whose effect is only visible across contracts or several steps later. {emphasis}
 
 Earlier rounds already produced these changes for this property; yours must be DIFFERENT in kind AND in location
 (another function / another mechanism of the property):
